@@ -282,7 +282,12 @@ fn output_of(v: &V, ix: usize, problems: &mut Vec<(String, String)>) -> Result<D
             if a.len() == 2 && as_int(&a[0]) == Some(1) {
                 if let V::Tag(24, inner) = &a[1] {
                     if let Some(b) = inner.as_bytes() {
-                        o.datum = Some(parse(b).map_err(|e| format!("{what}: datum {e}"))?);
+                        // a datum our generic reader cannot represent (e.g. a bignum beyond 128 bits) is kept
+                        // as an opaque marker: the echo clauses then see a value that is not the intended one
+                        o.datum = Some(match parse(b) {
+                            Ok(v) => v,
+                            Err(e) => V::Text(format!("<datum not representable: {e}>")),
+                        });
                     }
                 }
             } else {
